@@ -8,6 +8,14 @@
 //! `nav <prog hex> <features> …same…`: one navigation or evaluator program applied verbatim to a tree that
 //! carries integers around 2^53, at the ends of the i64 range and 10^15…10^18; four CLI runs: block
 //! YAML, flow YAML, JSON on stdin with `-p json`, and the JSON as a file named `*.json`.
+//! `esc <prog hex> <features> <br n toks> <hexA> <br n toks> <hexB> <ascii json hex>`: a tree of strings (values and
+//! keys) with non-ASCII, control and astral characters at the start / in the middle / at the END;
+//! A = block YAML with every string double-quoted and all such characters written as `\x` / `\u` /
+//! `\U` escapes, B = flow YAML in random spellings, JSON = ASCII-only (`\uXXXX`; surrogate pairs or — two requests in three — raw characters beyond the BMP;
+//! `\/`, either hex case); five CLI runs (A, B, ASCII JSON on stdin and as a `*.json` file, and the
+//! raw-UTF-8 JSON the harness derives from A's tree) of one program from ESC_PROGRAMS — the
+//! navigation programs the yq front end streams (`.`, `.a`, `.b.c`, `.[0]`, `.[]`, …) and evaluator
+//! programs over the same paths.
 use crate::c14::yamlgen::*;
 use crate::rng::Rng;
 use crate::util::*;
@@ -33,6 +41,68 @@ fn json_str(s: &str, o: &mut String) {
         }
     }
     o.push('"');
+}
+
+/// ASCII-only JSON string: `\uXXXX` for every control / DEL / non-ASCII character (a surrogate pair
+/// beyond the BMP), short escapes or `\u00XX` for `\n` `\t` …, `/` sometimes as `\/`.
+fn json_str_ascii(s: &str, upper: bool, pairs: bool, o: &mut String) {
+    let u = |n: u32, o: &mut String| {
+        if upper {
+            o.push_str(&format!("\\u{:04X}", n));
+        } else {
+            o.push_str(&format!("\\u{:04x}", n));
+        }
+    };
+    o.push('"');
+    for c in s.chars() {
+        let n = c as u32;
+        match c {
+            '"' => o.push_str("\\\""),
+            '\\' => o.push_str("\\\\"),
+            '\n' if !upper => o.push_str("\\n"),
+            '\t' if !upper => o.push_str("\\t"),
+            '/' if upper => o.push_str("\\/"),
+            _ if n < 0x20 || n == 0x7f => u(n, o),
+            _ if n < 0x80 => o.push(c),
+            _ if n < 0x10000 => u(n, o),
+            _ if !pairs => o.push(c),
+            _ => {
+                let v = n - 0x10000;
+                u(0xD800 + (v >> 10), o);
+                u(0xDC00 + (v & 0x3ff), o);
+            }
+        }
+    }
+    o.push('"');
+}
+
+pub fn to_json_ascii(t: &Tree, upper: bool, pairs: bool, o: &mut String) {
+    match t {
+        Tree::Str(s) => json_str_ascii(s, upper, pairs, o),
+        Tree::Seq(xs) => {
+            o.push('[');
+            for (i, x) in xs.iter().enumerate() {
+                if i > 0 {
+                    o.push(',');
+                }
+                to_json_ascii(x, upper, pairs, o);
+            }
+            o.push(']');
+        }
+        Tree::Map(kvs) => {
+            o.push('{');
+            for (i, (k, x)) in kvs.iter().enumerate() {
+                if i > 0 {
+                    o.push(',');
+                }
+                json_str_ascii(k, upper, pairs, o);
+                o.push(':');
+                to_json_ascii(x, upper, pairs, o);
+            }
+            o.push('}');
+        }
+        other => to_json(other, o),
+    }
 }
 
 pub fn to_json(t: &Tree, o: &mut String) {
@@ -171,6 +241,29 @@ pub fn exec(a: &[&str]) -> String {
                 format!("DIFF json={} jsonfile={} block={} flow={}", brief(&oj), brief(&of), brief(&oa), brief(&ob))
             }
         }
+        "esc" => {
+            let prog = String::from_utf8(parse_bytes(a[1])).unwrap();
+            let ya = parse_bytes(a[6]);
+            let yb = parse_bytes(a[10]);
+            let js = parse_bytes(a[11]);
+            // the raw-UTF-8 JSON of the same tree (A's tree, as the wire format states it)
+            let raw = {
+                let ps = parse_stream(a[3], a[4], a[5]);
+                let mut o = String::new();
+                to_json(&ps.docs[0].root.tree(), &mut o);
+                o
+            };
+            let oa = run_cli(&["yq", "-o", "json", "-I", "0", &prog], &ya);
+            let ob = run_cli(&["yq", "-o", "json", "-I", "0", &prog], &yb);
+            let oj = run_cli(&["yq", "-p", "json", "-o", "json", "-I", "0", &prog], &js);
+            let of = run_cli_json_file(&prog, &js);
+            let or = run_cli(&["yq", "-p", "json", "-o", "json", "-I", "0", &prog], raw.as_bytes());
+            if oa == ob && ob == oj && oj == of && of == or {
+                format!("SAME {:016x}", fnv(&oa))
+            } else {
+                format!("DIFF asciijson={} asciijsonfile={} rawjson={} block={} flow={}", brief(&oj), brief(&of), brief(&or), brief(&oa), brief(&ob))
+            }
+        }
         _ => "BAD-OP".into(),
     }
 }
@@ -211,6 +304,66 @@ pub const NAV_PROGRAMS: &[&str] = &[
     ".", ".[]", ".[0]", ".[1]", ".[1].id", ".[1].lims", ".[1].lims[]", ".[2]", ".[2][]", ".[2][0]", ".[3]", ".[1].lims[1]", ".[] | .", ".[1] | .id",
     "[.[] | numbers]", ".[1].id + 0", "[.. | numbers]", "map(.)", ".[1] | to_entries", "[.[1].lims[] | tostring]", ".[2] | add", "[.[2][] | . - 1]", ".[1].lims | sort", "tojson",
 ];
+/// Programs for `esc` requests; the tree is `[s, {a: s, b: {c: s, <key>: s}, l: [s, …]}, [s, …]]` or the
+/// inner mapping itself.  Streamed navigation first, then evaluator programs over the same nodes.
+pub const ESC_SEQ_PROGRAMS: &[&str] = &[
+    ".", ".[]", ".[0]", ".[1]", ".[1].a", ".[1].b.c", ".[1].b", ".[1].l", ".[1].l[0]", ".[1].l[]", ".[2]", ".[2][]", ".[2][0]", ".[1].b[]", ".[1][]",
+    ".[] | .", "map(.)", "[.. | strings]", ".[1] | to_entries", "tojson", ".[0] | explode", "[.. | strings | utf8bytelength]", ".[1].b | keys", ".[1].a + \"\"", "[.[2][] | length]", ".[1] | map_values(.)", "[paths]",
+];
+pub const ESC_MAP_PROGRAMS: &[&str] = &[
+    ".", ".a", ".b.c", ".b", ".l", ".l[0]", ".l[]", ".[]", ".b[]", ".l[1]",
+    ". | .a", "to_entries", "[.. | strings]", "tojson", ".a | explode", "keys", ".b | keys", "map_values(.)", ".a + \"\"", "[.l[] | length]", "[paths]", "[.[]]",
+];
+
+/// Characters the three syntaxes spell differently: controls, DEL, C1 / NEL / NBSP, the ends of the
+/// 2- and 3-byte UTF-8 ranges, the replacement character, astral characters (surrogate pairs in
+/// ASCII JSON, `\\U` in YAML).  U+2028 / U+2029 are left to the `dq-LP` class (finding N2).
+const ESC_CHARS: &[char] = &[
+    '\u{e9}', '\u{e9}', '\u{1}', '\u{1f}', '\u{7f}', '\u{80}', '\u{85}', '\u{a0}', '\u{ff}', '\u{100}', '\u{7ff}', '\u{800}', '\u{65e5}', '\u{fffd}', '\u{10000}', '\u{1f600}', '\u{10ffff}', '\u{8}', '\u{c}', '\u{1b}',
+];
+const ESC_WORDS: &[&str] = &["caf", "Zo", "x y", "a", "d\u{e9}j", "0", "-", "a/b", "q\"q", "b\\s", "t\tt", "n\nn"];
+
+fn esc_string(r: &mut Rng) -> String {
+    let c = |r: &mut Rng| *r.pick(ESC_CHARS);
+    let w = |r: &mut Rng| r.pick(ESC_WORDS).to_string();
+    match r.below(8) {
+        // END (the most frequent shape), END twice, only, START, MIDDLE, both ends
+        0 | 1 | 2 => format!("{}{}", w(r), c(r)),
+        3 => format!("{}{}{}", w(r), c(r), c(r)),
+        4 => c(r).to_string(),
+        5 => format!("{}{}", c(r), w(r)),
+        6 => format!("{}{}{}", w(r), c(r), w(r)),
+        _ => format!("{}{}{}", c(r), w(r), c(r)),
+    }
+}
+
+/// Block presentation with every string (and every key that is not a plain word) double-quoted and
+/// every non-ASCII / non-printable character written as a numeric escape (`\\x`, `\\u`, `\\U`).
+fn to_block_esc(t: &Tree, r: &mut Rng, ctx: Ctx) -> PNode {
+    match t {
+        Tree::Str(s) => PNode::Str(s.clone(), SStyle::Double { short: false, esc_uni: true }),
+        Tree::Seq(xs) if !xs.is_empty() => PNode::Seq {
+            flow: false,
+            step: if ctx == Ctx::Map && r.chance(1, 3) { 0 } else { 2 },
+            compact: false,
+            items: xs.iter().map(|x| (Meta::default(), to_block_esc(x, r, Ctx::Seq))).collect(),
+        },
+        Tree::Map(kvs) if !kvs.is_empty() => PNode::Map {
+            flow: false,
+            step: 2,
+            compact: ctx == Ctx::Seq && r.chance(1, 3),
+            entries: kvs
+                .iter()
+                .map(|(k, x)| {
+                    let ks = if k.is_ascii() && plain_safe(false, k) && resolves_to_str(k) && k != "<<" { KStyle::Plain } else { KStyle::Double { short: false, esc_uni: true } };
+                    (Meta::default(), k.clone(), ks, to_block_esc(x, r, Ctx::Map))
+                })
+                .collect(),
+        },
+        other => to_flow(other, r),
+    }
+}
+
 pub const PROGRAMS: &[&str] = &[
     ".", "[..]|length", "[paths]", "[leaf_paths]", "[..|type]", "[..|length?]", "[..|tostring]", "[..|tojson]", "[..|keys?]",
     "[..|to_entries?]", "[..|numbers|.+1]", "[..|numbers|.*2-1]", "[..|numbers|-.]", "[..|numbers|.%7]", "[..|strings|ascii_downcase]",
@@ -230,7 +383,7 @@ pub const PROGRAMS: &[&str] = &[
 ];
 
 pub fn gen(tier: Tier, r: &mut Rng, emit: &mut dyn FnMut(String)) {
-    let n = if tier == Tier::Quick { 10 } else { 400 };
+    let n = if tier == Tier::Quick { 10 } else { 300 };
     let o = GenOpts { block_scalars: true, comments: true, breaks: false, anchors: false, multidoc: false, max_depth: 3 };
     let mut made = 0;
     let mut attempts = 0;
@@ -293,8 +446,46 @@ pub fn gen(tier: Tier, r: &mut Rng, emit: &mut dyn FnMut(String)) {
         ));
         made += 1;
     }
+    // strings with escapes at the start / middle / END in every syntax, through streamed navigation
+    // and evaluator programs
+    let ne = if tier == Tier::Quick { 32 } else { 200 };
+    let mut i = 0;
+    let mut esc_tries = 0;
+    while i < ne && esc_tries < ne * 30 {
+        esc_tries += 1;
+        let mut strs = |r: &mut Rng, lo: u64, hi: u64| (0..r.range(lo, hi)).map(|_| Tree::Str(esc_string(r))).collect::<Vec<_>>();
+        let mut key = esc_string(r);
+        if ["a", "b", "c", "l"].contains(&key.as_str()) {
+            key.push('\u{e9}');
+        }
+        let inner = Tree::Map(vec![
+            ("a".into(), Tree::Str(esc_string(r))),
+            ("b".into(), Tree::Map(vec![("c".into(), Tree::Str(esc_string(r))), (key, Tree::Str(esc_string(r)))])),
+            ("l".into(), Tree::Seq(strs(r, 2, 4))),
+        ]);
+        let as_map = i % 2 == 1;
+        let tree = if as_map { inner } else { Tree::Seq(vec![Tree::Str(esc_string(r)), inner, Tree::Seq(strs(r, 1, 3))]) };
+        let a = PStream { docs: vec![PDoc { fill: vec![], marker: false, end_marker: false, root: to_block_esc(&tree, r, Ctx::Root), root_meta: Meta::default() }], br: Break::Lf };
+        let b = PStream { docs: vec![PDoc { fill: vec![], marker: false, end_marker: false, root: to_flow(&tree, r), root_meta: Meta::default() }], br: Break::Lf };
+        if features(&a) != "-" || features(&b) != "-" || dq_lp(&b.docs[0].root) {
+            continue;
+        }
+        // a surrogate-pair escape in JSON input is a recorded finding (N3): a tree with characters
+        // beyond the BMP gets them as pairs in one request out of three (class tag json-surr-pair),
+        // raw otherwise
+        let mut raw = String::new();
+        to_json(&tree, &mut raw);
+        let astral = raw.chars().any(|c| c as u32 >= 0x10000);
+        let pairs = astral && i % 3 == 0;
+        let mut js = String::new();
+        to_json_ascii(&tree, r.chance(1, 2), pairs, &mut js);
+        let progs = if as_map { ESC_MAP_PROGRAMS } else { ESC_SEQ_PROGRAMS };
+        let prog = progs[(i / 2 * 7) % progs.len()];
+        emit(format!("C26 esc {} {} {} {} {} {} {}", hex_bytes(prog.as_bytes()), if pairs { "json-surr-pair" } else { "-" }, stream_wire(&a), hex_bytes(&render(&a)), stream_wire(&b), hex_bytes(&render(&b)), hex_bytes(js.as_bytes())));
+        i += 1;
+    }
     // integers beyond 2^53 under navigation programs, JSON given on stdin and as a *.json file
-    let nn = if tier == Tier::Quick { 10 } else { 300 };
+    let nn = if tier == Tier::Quick { 10 } else { 200 };
     let mut i = 0;
     let mut nav_tries = 0;
     while i < nn && nav_tries < nn * 30 {
